@@ -71,4 +71,4 @@ def check(ctx):
     scan_body_decoding(ctx)
     scan_request_bodies(ctx)
     return servefam.check_prop(ctx, "C14", ["GoagModel.Props.C14"], THEOREMS, FACETS, TRUSTED, rule=RULE,
-                               explanation=EXPLANATION, assumptions=ASSUMPTIONS, level="other")
+                               explanation=EXPLANATION, assumptions=ASSUMPTIONS, level="exploration")
